@@ -23,6 +23,7 @@ import SympdeModel.Model.Memo
 import SympdeModel.Model.Broadcast
 import SympdeModel.Model.Pullback
 import SympdeModel.Model.IntegralMap
+import SympdeModel.Model.MatSym
 open Sympde
 
 def dispatch (line : String) : String :=
@@ -50,6 +51,7 @@ def dispatch (line : String) : String :=
       | "C16" => Bcast.handle args
       | "C03" => PB.handle args
       | "C04" => IM.handle args
+      | "C02M" => MatSym.handle args
       | _ => "bad-model"
   | some _ => "bad-line"
 
